@@ -53,6 +53,8 @@ func c14Good() []c14Filler {
 	return []c14Filler{
 		{"key = 'a'", 'B'}, {"is_int(value)", 'B'}, {"int(value) > 1", 'B'}, {"true", 'B'}, {"!(key ^= 'a')", 'B'}, {"key in ('a', 'b')", 'B'}, {"value between '1' and '3'", 'B'}, {"float(value) = 1.5", 'B'},
 		{"1", 'N'}, {"int(value)", 'N'}, {"strlen(key) + 1", 'N'}, {"2.5", 'N'}, {"float(value) * 2", 'N'}, {"len(split(value, ','))", 'N'},
+		// divisors that are literals below one, above one and non-literal zeros
+		{"int(value) / 0.5", 'N'}, {"1 / 0.25", 'N'}, {"float(value) / 0.999", 'N'}, {"7 / 1.5", 'N'}, {"3 / (1 - 1 + 2)", 'N'},
 		// elements of lists built from numbers are numbers
 		{"list(1, 2)[0]", 'N'}, {"int_list(4, int(value))[1]", 'N'}, {"flist(0.5, float(value))[1] * 2", 'N'},
 		{"'a'", 'T'}, {"key", 'T'}, {"upper(value)", 'T'}, {"key + 'x'", 'T'}, {"str(int(value))", 'T'}, {"join('-', key, value)", 'T'},
@@ -102,6 +104,9 @@ func c14FaultyAtoms() []c14Atom {
 		{"2 - 'a'", 'N', "- on text"},
 		{"true + 1", 'N', "+ on a Boolean"},
 		{"int(value) / 0", 'N', "literal zero divisor"},
+		{"float(value) / 0.0", 'N', "literal zero divisor"},
+		{"1.5 / (0)", 'N', "literal zero divisor"},
+		{"(2 / 0.00) + 1", 'N', "literal zero divisor"},
 		{"1 + (2 * 'a')", 'N', "fault inside arithmetic"},
 		{"'a' + 1", 'T', "+ on text and number"},
 		{"key + true", 'T', "+ on text and Boolean"},
@@ -174,6 +179,8 @@ func c14ExprCtxs() []c14Ctx {
 		{"{} ~= '^a'", 'T', "NBLJ", true, 'B'},
 		{"{} >= key", 'T', "NBLJ", true, 'B'},
 		{"({} + 1) > 2", 'N', "TBLJ", true, 'B'},
+		{"({} / 0.5) > 1", 'N', "TBLJ", true, 'B'},
+		{"(0.25 / {}) < 100", 'N', "TBLJ", true, 'B'},
 		{"(2 * {}) > 1", 'N', "TBLJ", true, 'B'},
 		{"(3 - {}) > 1", 'N', "TBLJ", true, 'B'},
 		{"(key + {}) = 'ab'", 'T', "NBLJ", true, 'B'},
